@@ -177,7 +177,7 @@ def _estimators(spec, emit):
     import skglm
     from skglm.estimators import Lasso, ElasticNet, WeightedLasso, MCPRegression, GroupLasso, LinearSVC
     seed = spec["seed"]
-    names = ["Lasso", "ElasticNet", "WeightedLasso", "MCPRegression", "GroupLasso", "LinearSVC"]
+    names = ["Lasso", "ElasticNet", "WeightedLasso", "MCPRegression", "GroupLasso", "LinearSVC", "LinearSVC-refit"]
     for rep in range(spec["reps"]):
         for name in names:
             cid = "EST/%s/r%d" % (name, rep)
@@ -193,7 +193,19 @@ def _estimators(spec, emit):
             try:
                 with warnings.catch_warnings():
                     warnings.simplefilter("ignore")
-                    if name == "LinearSVC":
+                    if name == "LinearSVC-refit":
+                        # warm-started refit after shrinking the box: many coefficients start above the new bound
+                        n2 = int(rng.integers(60, 140))
+                        X = C.make_X(rng, n2, p, "gauss")
+                        y = C.make_target(rng, X, "pm1", noise=2.0)
+                        est = LinearSVC(C=1.0, tol=1e-8, warm_start=True, max_iter=50, max_epochs=2000).fit(X, y)
+                        Cc = float(rng.choice([0.5, 0.25, 0.05]))
+                        est.set_params(C=Cc, max_iter=int(rng.choice([1, 2, 3])), max_epochs=budget["max_epochs"])
+                        est.fit(X, y)
+                        vals = dict(coef=est.coef_, dual=est.dual_coef_, intercept=np.atleast_1d(est.intercept_))
+                        ok = bool(np.all(est.dual_coef_ >= 0) and np.all(est.dual_coef_ <= Cc))
+                        margin = float(min(est.dual_coef_.min(), (Cc - est.dual_coef_).min()))
+                    elif name == "LinearSVC":
                         y = C.make_target(rng, X, "pm1")
                         Cc = float(10 ** rng.uniform(-1, 1))
                         est = LinearSVC(C=Cc, tol=tol, **budget).fit(X, y)
